@@ -16,11 +16,13 @@ GEN_UNITS = []
 COQ_TARGETS = ["Props/C15.vo", "Model/C15Inst.vo", "Model/C08Inst.vo", "Model/Harness.vo"]
 THEOREM_FILES = ["Props/C15.v"]
 COQ_IMPORTS = ("From Coq Require Import List ZArith QArith Qcanon Bool.\n"
-               "From PV Require Import Base.Index Np.Array Model.Repr Model.Harness Model.C15Sym Model.C15Inst Model.C08Inst.\n")
-RULE = ("shapes (2,3,3), (3,2,3,2), (2,2,2,2), (3,3,3), (2,2), (3,3), (2,2,3), (3,2,2,3) ...; EVERY choice of one group (>= 2 "
-        "modes of equal size) or two disjoint equal-sized groups, proper subsets included; non-symmetric integer data, plus "
-        "exactly symmetric and almost-symmetric (one entry changed) data for the test; both versions; with/without details; "
-        "non-trivial = data not symmetric in the groups or the group is a proper subset")
+               "From PV Require Import Base.Index Np.Array Model.Repr Model.Harness Model.C15Sym Model.C15Impl Model.C15Inst Model.C08Inst.\n")
+RULE = ("shapes (2,3,3), (3,2,3,2), (2,3,3,2), (3,2,2,3), (2,2,2,2), (3,3,3), (2,2), (3,3), (2,2,3) ...; EVERY choice of one group "
+        "(>= 2 modes of equal size) or two disjoint groups of equal length (mode sizes may differ BETWEEN groups), proper subsets "
+        "included, group members also listed out of order; non-symmetric integer data, exactly symmetric data, almost-symmetric "
+        "data (one entry changed by 1) and NEARLY symmetric float data (symmetric integers >= 1 with single entries moved by "
+        "2^-20, i.e. inside numpy's allclose tolerance); both versions; with/without details; every symmetrised result must pass "
+        "both versions of the symmetry test; non-trivial = data not symmetric in the groups or the group is a proper subset")
 CORRESPONDENCE_ONLY = ["tensor.symmetrize new version = spec_sym", "tensor.symmetrize old version = spec_sym",
                        "tensor.issymmetric new/old version = spec_issym", "spec_sym result is symmetric / idempotent (evaluated per case, statement kept as C15_result_symmetric_stmt)",
                        "ktensor.symmetrize: identical factors (then symmetric by theorem C15_kruskal_sym), tensor preserved when the input was symmetric"]
@@ -81,17 +83,33 @@ def is_sym(shape, data, groups):
     return True
 
 
+BUMP = Fraction(1, 2 ** 20)     # well inside np.allclose's default tolerance for entries >= 1, exactly representable
+
+
+def full_data(a):
+    """the exact input values: integers, plus 2^-20 on the entries listed in a['bump'] (nearly symmetric float data)"""
+    d = [Fraction(x) for x in a["data"]]
+    for k in a.get("bump") or []:
+        d[k] += BUMP
+    return d
+
+
 def gen_cases(rng, tier):
     big = tier == "thorough"
-    shapes = [(2, 3, 3), (3, 2, 3, 2), (2, 2, 2, 2), (3, 3, 3), (2, 2), (3, 3), (2, 2, 3), (3, 3, 2), (2, 2, 2), (2, 3, 2)]
+    shapes = [(2, 3, 3), (3, 2, 3, 2), (2, 3, 3, 2), (2, 2, 2, 2), (3, 3, 3), (2, 2), (3, 3), (2, 2, 3), (3, 3, 2), (2, 2, 2),
+              (2, 3, 2), (3, 2, 2, 3)]
     if big:
-        shapes += [(3, 2, 2, 3), (2, 3, 3, 2), (4, 4), (2, 4, 4), (3, 3, 3, 2), (2, 2, 2, 2, 2)]
+        shapes += [(4, 4), (2, 4, 4), (3, 3, 3, 2), (2, 2, 2, 2, 2), (2, 3, 2, 3), (3, 2, 2)]
     cases = []
     for shape in shapes:
         n = math.prod(shape)
-        for groups in group_choices(shape):
-            proper = sum(len(g) for g in groups) < len(shape) or len(groups) > 1
+        for groups0 in group_choices(shape):
+            proper = sum(len(g) for g in groups0) < len(shape) or len(groups0) > 1
             for rep in range(3 if big else 1):
+                groups = groups0
+                if rng.random() < 0.3:          # members of a group in arbitrary order, groups in arbitrary order
+                    groups = [rng.sample(g, len(g)) for g in groups0]
+                    rng.shuffle(groups)
                 data = [rng.randint(-4, 5) for _ in range(n)]
                 for version in (None, 1):
                     cases.append(Case("symmetrize", {"shape": list(shape), "data": data, "grps": groups, "version": version}, True))
@@ -99,26 +117,45 @@ def gen_cases(rng, tier):
                 sdata = sym_int(shape, [rng.randint(-2, 3) for _ in range(n)], groups)
                 adata = list(sdata)
                 adata[rng.randrange(n)] += 1
-                for d in (data, sdata, adata):
+                # nearly symmetric float data: positive symmetric integers, one or two entries moved by 2^-20
+                ndata = sym_int(shape, [rng.randint(1, 3) for _ in range(n)], groups)
+                bump = sorted(rng.sample(range(n), rng.choice([1, 1, 2])))
+                for version in (None, 1):
+                    cases.append(Case("symmetrize", {"shape": list(shape), "data": ndata, "bump": bump, "grps": groups,
+                                                     "version": version}, True))
+                    if rep == 0 and rng.random() < 0.35:        # exactly symmetric input keeps its value
+                        cases.append(Case("symmetrize", {"shape": list(shape), "data": sdata, "grps": groups,
+                                                         "version": version}, proper))
+                for d, b in ((data, None), (sdata, None), (adata, None), (ndata, bump)):
                     for version, details in ((None, False), (1, False), (None, True), (1, True)):
                         if not big and details and version == 1 and rng.random() < 0.5:
                             continue
-                        cases.append(Case("issymmetric", {"shape": list(shape), "data": d, "grps": groups, "version": version,
-                                                          "details": details}, proper or not is_sym(shape, d, groups)))
+                        arg = {"shape": list(shape), "data": d, "grps": groups, "version": version, "details": details}
+                        if b is not None:
+                            arg["bump"] = b
+                        cases.append(Case("issymmetric", arg, proper or b is not None or not is_sym(shape, d, groups)))
         # default grps (all modes) on cubical shapes
         if len(set(shape)) == 1:
             data = [rng.randint(-4, 5) for _ in range(n)]
             for version in (None, 1):
                 cases.append(Case("symmetrize", {"shape": list(shape), "data": data, "grps": None, "version": version}, True))
                 cases.append(Case("issymmetric", {"shape": list(shape), "data": data, "grps": None, "version": version, "details": False}, True))
-    # Kruskal symmetrize: cubical shapes, ranks 1-3; symmetric inputs (identical factors) and arbitrary ones
+    # groups whose mode sizes differ inside the group: the test answers False (both versions), symmetrize refuses
+    for shape, groups in (((2, 3, 3), [[0, 1]]), ((2, 3, 2, 3), [[0, 1], [2, 3]]), ((2, 2, 3), [[0, 1, 2]]),
+                          ((3, 3, 2, 3), [[0, 1], [2, 3]])):
+        n = math.prod(shape)
+        data = [rng.randint(-2, 2) for _ in range(n)]
+        for version, details in ((None, False), (1, False), (1, True)):
+            cases.append(Case("issymmetric", {"shape": list(shape), "data": data, "grps": groups, "version": version,
+                                              "details": details}, True))
+    # Kruskal symmetrize: cubical shapes, ranks 1-3; symmetric inputs (identical factors, weights of either sign) and arbitrary ones
     for m, N in ((2, 2), (3, 2), (2, 3), (3, 3), (2, 4)):
         for R in (1, 2, 3):
-            for kind in ("symmetric", "random"):
+            for kind in ("symmetric", "symmetric", "random"):
                 A = [[rng.randint(-3, 3) for _ in range(R)] for _ in range(m)]
                 if kind == "symmetric":
                     f = [A for _ in range(N)]
-                    w = [rng.randint(1, 3) for _ in range(R)]
+                    w = [rng.choice([-3, -2, -1, 1, 2, 3]) for _ in range(R)]
                 else:
                     f = [[[rng.randint(-3, 3) for _ in range(R)] for _ in range(m)] for _ in range(N)]
                     w = [rng.choice([-2, -1, 1, 2, 3]) for _ in range(R)]
@@ -137,16 +174,20 @@ def run_impl(c):
             K = ttb.ktensor([np.array(A, dtype=float).reshape((len(A), R)) for A in a["f"]], np.array(a["w"], dtype=float), copy=True)
             S = K.symmetrize()
             return {"ok": tgen.obs_ktensor(np, S), "issym": bool(S.issymmetric())}
-        T = tgen.mk_tensor(ttb, np, a["shape"], a["data"])
+        T = tgen.mk_tensor(ttb, np, a["shape"], [float(x) for x in full_data(a)])
         grps = None if a["grps"] is None else (np.array(a["grps"][0]) if len(a["grps"]) == 1 else np.array(a["grps"]))
         if c.op == "symmetrize":
             S = T.symmetrize(grps, a["version"]) if grps is not None else T.symmetrize(version=a["version"])
             S2 = S.copy().symmetrize(grps, a["version"]) if grps is not None else S.copy().symmetrize(version=a["version"])
-            return {"ok": tgen.obs_dense(np, S), "again": tgen.obs_dense(np, S2)}
+            # "the result passes the symmetry test": both versions of the test, on a copy of the result
+            t_new = bool(S.copy().issymmetric(grps)) if grps is not None else bool(S.copy().issymmetric())
+            t_old = bool(S.copy().issymmetric(grps, 1)) if grps is not None else bool(S.copy().issymmetric(version=1))
+            return {"ok": tgen.obs_dense(np, S), "again": tgen.obs_dense(np, S2), "test_new": t_new, "test_old": t_old}
         if c.op == "issymmetric":
             r = T.issymmetric(grps, a["version"], a["details"])
-            if a["details"]:
-                return {"ok": bool(r[0]), "ndiffs": int(np.asarray(r[1]).size), "perms_shape": [int(x) for x in np.asarray(r[2]).shape]}
+            if a["details"] and isinstance(r, tuple):
+                return {"ok": bool(r[0]), "ndiffs": int(np.asarray(r[1]).size), "perms_shape": [int(x) for x in np.asarray(r[2]).shape],
+                        "maxdiff_zero": bool((np.asarray(r[1]) == 0).all())}
             return {"ok": bool(r)}
     except Exception as ex:
         return {"exc": type(ex).__name__, "msg": str(ex)[:200]}
@@ -159,6 +200,10 @@ def groups_of(a):
 
 def finite(vals):
     return all(not isinstance(x, str) for x in vals)
+
+
+def gb(x):
+    return "true" if x else "false"
 
 
 def coq_check(c, o):
@@ -174,23 +219,55 @@ def coq_check(c, o):
         shp = gnlist([len(A) for A in a["f"]])
         keep = f" && qk_den_close {shp} {c08.gqk(a['w'], a['f'])} O" if a["kind"] == "symmetric" else ""
         return (f"let O := {O} in q_mats_identical (kfactors O) && Nat.eqb (length (kfactors O)) {len(a['f'])} && "
-                f"nvec_eqb (kshape O) {shp} && {'true' if o['issym'] else 'false'}{keep}")
+                f"nvec_eqb (kshape O) {shp} && q_k_symmetric {shp} O && {gb(o['issym'])}{keep}")
     G = gnmat(groups_of(a))
     if c.op == "symmetrize":
         if not (finite(o["ok"]["data"]) and finite(o["again"]["data"])):
             return "false"
-        T = tgen.gqdense(a["shape"], a["data"])
+        T = tgen.gqdense(a["shape"], full_data(a))
         O = tgen.gqdense(o["ok"]["shape"], o["ok"]["data"])
         O2 = tgen.gqdense(o["again"]["shape"], o["again"]["data"])
-        return (f"let T := {T} in let O := {O} in q_sym_matches T {G} O && q_same O {O2} && q_sym_result_symmetric T {G}")
+        # pyttb's result = the spec average (exact rationals, 1e-9); both implementation models = the spec on this input;
+        # symmetrising again changes nothing; pyttb's result is EXACTLY symmetric (spec test) and passed both pyttb tests
+        return (f"let T := {T} in let O := {O} in q_sym_matches T {G} O && q_impls_agree T {G} && q_same O {O2} && "
+                f"q_sym_result_symmetric T {G} && q_issym O {G} && {gb(o['test_new'])} && {gb(o['test_old'])}")
     if c.op == "issymmetric":
+        extra = ""
+        if a["details"] and "ndiffs" in o:
+            cnt = sum(math.factorial(len(g)) for g in groups_of(a))
+            extra = (f" && Nat.eqb {o['ndiffs']} {cnt} && nvec_eqb {gnlist(o['perms_shape'])} {gnlist([cnt, len(a['shape'])])}"
+                     f" && Bool.eqb {gb(o['maxdiff_zero'])} {gb(o['ok'])}")
+        if a.get("bump"):
+            T = tgen.gqdense(a["shape"], full_data(a))
+            return f"let T := {T} in Bool.eqb (q_issym T {G}) {gb(o['ok'])} && q_issym_impls_agree T {G}{extra}"
         T = tgen.gdense(a["shape"], a["data"])
-        return f"Bool.eqb (z_issym {T} {G}) {'true' if o['ok'] else 'false'}"
+        return f"let T := {T} in Bool.eqb (z_issym T {G}) {gb(o['ok'])} && z_issym_impls_agree T {G}{extra}"
     raise ValueError(c.op)
 
 
 # ----------------------------------------------------------------------------------------------------------------
 # independent brute force (pure python)
+def sym_avg(shape, data, groups):
+    """exact average over all within-group rearrangements, group after group (Fractions)"""
+    subs = tgen.all_subs(shape)
+    pos = {tuple(s_): k for k, s_ in enumerate(subs)}
+    cur = [Fraction(x) for x in data]
+    for g in groups:
+        new = []
+        for s_ in subs:
+            tot = Fraction(0)
+            cnt = 0
+            for p_ in itertools.permutations([s_[m] for m in g]):
+                t = list(s_)
+                for m, v in zip(g, p_):
+                    t[m] = v
+                tot += cur[pos[tuple(t)]]
+                cnt += 1
+            new.append(tot / cnt)
+        cur = new
+    return cur
+
+
 def oracle(c, o):
     a = c.args
     if "exc" in o:
@@ -217,74 +294,18 @@ def oracle(c, o):
         return None
     groups = groups_of(a)
     shape = a["shape"]
+    data = full_data(a)
     if c.op == "issymmetric":
-        want = is_sym(shape, a["data"], groups)
+        want = is_sym(shape, data, groups)
         return None if want == o["ok"] else f"issymmetric answered {o['ok']}, the tensor is {'symmetric' if want else 'not symmetric'} in {groups}"
-    tot = sym_int(shape, a["data"], groups)
-    denom = math.prod(math.factorial(len(g)) for g in groups)
-    for k, (s, got) in enumerate(zip(tot, o["ok"]["data"])):
-        want = Fraction(s, denom)
+    avg = sym_avg(shape, data, groups)
+    for k, (want, got) in enumerate(zip(avg, o["ok"]["data"])):
         if abs(Fraction(got) - want) > Fraction(1, 10 ** 9) * max(1, abs(want)):
             return f"entry {tgen.all_subs(shape)[k]} is {float(Fraction(got))}, the average over the group permutations is {float(want)}"
     if any(abs(Fraction(x) - Fraction(y)) > Fraction(1, 10 ** 9) * max(1, abs(Fraction(y))) for x, y in zip(o["again"]["data"], o["ok"]["data"])):
         return "symmetrising twice differs from symmetrising once"
+    if not is_sym(shape, [Fraction(x) for x in o["ok"]["data"]], groups):
+        return "the symmetrised tensor is not exactly symmetric in the groups"
+    if not (o["test_new"] and o["test_old"]):
+        return f"the symmetrised tensor does not pass issymmetric (new version: {o['test_new']}, old version: {o['test_old']})"
     return None
-
-
-# ----------------------------------------------------------------------------------------------------------------
-# known findings
-def _full(a):
-    gs = groups_of(a)
-    return len(gs) == 1 and sorted(gs[0]) == list(range(len(a["shape"])))
-
-
-def _reversal_closed(a):
-    """every mode m lies in the same group as its mirror image N-1-m (then C-order and F-order enumeration visit the
-    same symmetry classes and the defect A-39 is invisible)"""
-    N = len(a["shape"])
-    gs = groups_of(a)
-    return all(m == N - 1 - m or any(m in g and (N - 1 - m) in g for g in gs) for m in range(N))
-
-
-def trig_a39(c):
-    a = c.args
-    if c.op == "symmetrize":
-        return a["version"] is None and not _reversal_closed(a)
-    return c.op == "issymmetric" and a["version"] is None and not a["details"] and not _reversal_closed(a)
-
-
-def trig_a40(c):
-    a = c.args
-    return c.op == "issymmetric" and (a["version"] is not None or a["details"]) and not _full(a)
-
-
-TRIGGERS = {"new_version_groups_not_closed_under_mode_reversal": trig_a39,
-            "old_issymmetric_groups_not_all_modes": trig_a40}
-
-
-def _witness_a39():
-    import numpy as np
-    import pyttb as ttb
-    X = np.zeros((2, 2, 2))
-    X[1, 0, 0] = 4.0            # average over swapping modes 1,2 leaves X unchanged (X is symmetric in modes 1,2)
-    T = ttb.tensor(X.copy())
-    S = T.symmetrize(np.array([1, 2]))
-    ok1 = np.array_equal(S.data, X)
-    ok2 = bool(T.issymmetric(np.array([1, 2])))
-    if ok1 and ok2:
-        return None
-    return f"tensor symmetric in modes (1,2): symmetrize changed it: {not ok1}; issymmetric answered {ok2}"
-
-
-def _witness_a40():
-    import numpy as np
-    import pyttb as ttb
-    T = ttb.tensor(np.ones((2, 2, 2)))
-    try:
-        r = T.issymmetric(np.array([1, 2]), version=1)
-    except Exception as ex:
-        return f"issymmetric(grps=[1,2], version=1) on the all-ones 2x2x2 tensor raised {type(ex).__name__}"
-    return None if r is True or r == True else f"answered {r}"  # noqa: E712
-
-
-WITNESSES = {"A-39": _witness_a39, "A-40": _witness_a40}
